@@ -53,16 +53,14 @@ def iadd(a, b):
     a, b, w = _unify(a, b)
     if w is None:
         return a + b
-    s = z3.simplify(a + b)
-    return s.as_signed_long() if z3.is_bv_value(s) else s
+    return a + b
 
 
 def isub(a, b):
     a, b, w = _unify(a, b)
     if w is None:
         return a - b
-    s = z3.simplify(a - b)
-    return s.as_signed_long() if z3.is_bv_value(s) else s
+    return a - b
 
 
 def ilt(a, b):
@@ -90,8 +88,7 @@ def iite(c, a, b):
         if a == b:
             return a
         a, b = z3.BitVecVal(a, 32), z3.BitVecVal(b, 32)
-    s = z3.simplify(z3.If(c, a, b))
-    return s.as_signed_long() if z3.is_bv_value(s) else s
+    return z3.If(c, a, b)
 
 
 def to_pyint(t):
@@ -179,8 +176,8 @@ class Models:
     def getattr(self, obj, attr):
         ip = self.ip
         if isinstance(obj, I.External):
-            if obj.mod == 'numpy' and obj.attr is None:
-                return I.External('numpy', attr)
+            if obj.attr is None:
+                return I.External(obj.mod, attr)
             return I.External(obj.mod, f'{obj.attr}.{attr}')
         if isinstance(obj, SymSeq):
             if attr == 'shape':
@@ -302,7 +299,7 @@ class Models:
         for j in reversed(range(len(cells))):
             c = cells[j]
             acc = z3.If(pos == z3.BitVecVal(j, w), c if is_sym(c) else z3.BitVecVal(c, bits), acc)
-        return z3.simplify(acc)
+        return acc
 
     def write_cell(self, seq, pos, val, guard):
         cells = seq.cells
@@ -322,7 +319,7 @@ class Models:
         for j in range(len(cells)):
             old = cells[j]
             to = old if is_sym(old) else z3.BitVecVal(old, bits)
-            cells[j] = z3.simplify(z3.If(land(guard, pos == z3.BitVecVal(j, w)), tv, to))
+            cells[j] = z3.If(land(guard, pos == z3.BitVecVal(j, w)), tv, to)
 
     # ------------------------------------------------------------------ subscripts
 
@@ -394,7 +391,7 @@ class Models:
                 return t
             if t.size() != W:
                 t = z3.Extract(W - 1, 0, t)
-            return SInt(z3.simplify(t), ub=cap)
+            return SInt(t, ub=cap)
         return SymSeq(seq.cells, seq.elem, seq.pytype, wrap(off), wrap(length), seq.writable, seq.name, seq.dtype)
 
     def seq_setitem(self, seq, idx, value, c_context=False):
@@ -589,7 +586,11 @@ class Models:
                 return SymSeq([], C_UCHAR, name)
             (x,) = args
             if isinstance(x, SymSeq):
-                return x.copy(name) if (name == 'bytearray' or x.writable) else x.retag(name, False) if x.plain_cells() is not None and x.pytype != name else (x if x.pytype == name else x.copy(name))
+                if x.pytype == 'str':
+                    ip.raise_exc('TypeError')   # bytes(str) without encoding
+                if name == 'bytearray' or x.writable:
+                    return x.copy(name)         # fresh storage (needs a concrete extent)
+                return x.retag('bytes', False)  # immutable source: sharing the cells is unobservable
             if isinstance(x, (int, np.integer)):
                 return SymSeq([0] * int(x), C_UCHAR, name)
             if isinstance(x, CVal) and x.concrete:
@@ -750,6 +751,15 @@ class Models:
 
     def call_method(self, obj, name, args, kwargs):
         ip = self.ip
+        if isinstance(obj, I.Instance) and name == '__attrs_init__':
+            names = [n for n, _ in obj.cls.attribs]
+            vals = dict(zip(names, args))
+            vals.update(kwargs)
+            for n in names:
+                if n not in vals:
+                    raise CannotEncode(f'__attrs_init__ missing {n}')
+                obj.fields[n] = ite(ip.active(), vals[n], obj.fields.get(n, UNSET))
+            return None
         if isinstance(obj, SymSeq):
             return self.seq_method(obj, name, args, kwargs)
         if isinstance(obj, SetM):
@@ -764,9 +774,7 @@ class Models:
                 fits = obj.fits
                 return IndexArrayM(obj.inserts, dt, obj.is_sorted, obj.unique, fits)
             if name == 'sort':
-                if ip.active() is not True:
-                    raise CannotEncode('conditional sort')
-                obj.is_sorted = True
+                obj.is_sorted = simp_bool(lor(obj.is_sorted, ip.active()))
                 return None
             if name == 'copy':
                 return IndexArrayM(list(obj.inserts), obj.dtype, obj.is_sorted, obj.unique, obj.fits)
@@ -792,7 +800,7 @@ class Models:
             out = []
             for c in pc:
                 if is_sym(c):
-                    out.append(z3.simplify(z3.If(z3.And(z3.UGE(c, lo), z3.ULE(c, hi)), c + d, c)))
+                    out.append(z3.If(z3.And(z3.UGE(c, lo), z3.ULE(c, hi)), c + d, c))
                 else:
                     out.append(c + d if lo <= c <= hi else c)
             return SymSeq(out, seq.elem, seq.pytype)
@@ -804,8 +812,17 @@ class Models:
             if args and args[0] != 'ascii':
                 raise CannotEncode('encode(non-ascii)')
             pc = seq.plain_cells()
-            bad = lor(*[(z3.UGE(c, 128) if is_sym(c) else c >= 128) for c in pc])
-            ip.raise_exc('UnicodeEncodeError', bad)
+            if pc is not None:
+                bad = lor(*[(z3.UGE(c, 128) if is_sym(c) else c >= 128) for c in pc])
+            else:
+                # view of symbolic extent: only cells inside the view count
+                off, ln = idx_term(seq.off), idx_term(seq.length)
+                conds = []
+                for j, c in enumerate(seq.cells):
+                    inside = land(ile(off, j), ilt(j, iadd(off, ln)))
+                    conds.append(land(inside, (z3.UGE(c, 128) if is_sym(c) else c >= 128)))
+                bad = lor(*conds)
+            ip.raise_exc('UnicodeEncodeError', simp_bool(bad))
             return seq.retag('bytes', False)
         if name == 'decode':
             return seq.retag('str', False)
